@@ -236,7 +236,7 @@ prop("C04", "exploration",
      "and non-nil only if a remote/I-O cause was armed, late asynchronous writes must complete with an error, fresh connections must not be closed by requests on stale handles, and at quiescent points "
      "Engine.CountConnections() == opened - closed. distinct_nontrivial = distinct (configuration class, close plan, nil/non-nil error) tuples whose whole trace was checked",
      [
-         {"harness": "eng", "flavour": "shim", "args": {"quick": ["--mode", "c04", "--n", "20"], "thorough": ["--mode", "c04"]}, "timeout": {"quick": 900, "thorough": 3400}},
+         {"harness": "eng", "flavour": "shim", "args": {"quick": ["--mode", "c04", "--n", "40"], "thorough": ["--mode", "c04"]}, "timeout": {"quick": 900, "thorough": 3400}},
          {"harness": "eng", "flavour": "shim", "tags": ["poll_opt"], "args": {"quick": ["--mode", "c04", "--n", "6"], "thorough": ["--mode", "c04", "--n", "60"]}, "timeout": {"quick": 900, "thorough": 3400}},
          {"harness": "eng", "flavour": "shim", "tags": ["gc_opt"], "args": {"quick": ["--mode", "c04", "--n", "4"], "thorough": ["--mode", "c04", "--n", "60"]}, "timeout": {"quick": 900, "thorough": 3400}},
          {"harness": "eng", "flavour": "shim", "arch": "386", "args": {"quick": ["--mode", "c04", "--n", "4"], "thorough": ["--mode", "c04", "--n", "40"]}, "timeout": {"quick": 900, "thorough": 3400}},
